@@ -92,6 +92,10 @@ def gen(g, tier):
         cfg["initial"]["offset"] = g.pick(["absent", "correct", "stale", "torn"])
     elif cfg["docs"] and cfg["initial"]["doc"] != "absent":
         cfg["initial"]["offset"] = g.pick(["absent", "stale", "torn"])
+    cfg["tick"] = g.pick([1.0, 1.0, 0.01])
+    if cfg["tick"] < 1 and cfg["initial"]["offset"] == "stale" and cfg["initial"]["doc"] in ("truncated", "garbage") and cfg["declare_uncompressed"]:
+        # (only where the wrong-sized file is certain to be replaced: next to a file that stays, a newer table is simply its table)
+        cfg["initial"]["offset"] = "stale-recent"
     n_inc = g.pick([1, 1, 2, 2, 3])
     for i in range(n_inc):
         last = i == n_inc - 1
@@ -318,6 +322,9 @@ class CorpusHarness(Harness):
                     put(table_path, real_table.encode(), 600_000)
                 elif init["offset"] == "stale":
                     put(table_path, b"50000;17\n", 100_000)  # older than the data file: must be rebuilt
+                elif init["offset"] == "stale-recent":
+                    # a table of an earlier version of the file, written a fraction of a second before the file is replaced in this run
+                    put(table_path, b"50000;17\n", 1_000_000.0)
                 elif init["offset"] == "torn":
                     put(table_path, b"50000;1", 100_000)
                 elif init["offset"] == "torn-newer":
@@ -330,6 +337,7 @@ class CorpusHarness(Harness):
                 bodies[arch_name] = archive
             # ---- incarnations -------------------------------------------------------------
             fs = SimFS(ch.stream("fs"), flush_threshold=cfg["flush"])
+            fs.tick = cfg.get("tick", 1.0)
             saved = (io.open if hasattr(io, "open") else None, getattr(net, "open", None), net.os, io.os, io.is_executable, net._HTTP, net._HTTPS, net.download_http.__kwdefaults__["sleep"], io._do_decompress)
             sleeps = []
             fired = {}
@@ -361,7 +369,7 @@ class CorpusHarness(Harness):
                         orig_extract(target_directory, compressed_file)
                         p = os.path.join(target_directory, doc_name)
                         if os.path.exists(p):
-                            fs.vtime += 1.0
+                            fs.vtime += fs.tick
                             fs.touch(p)
                             if _inc["extract_crash"] is not None and not last:
                                 with open(p, "rb") as f:
